@@ -512,19 +512,19 @@ impl Ctx {
   }
 
   /// One `get` with the bounds oracle. Returns the value for an in-range accepted read.
-  fn do_get(&mut self, list: &StatusList2021, model: &Model, i: usize, origin: &Value, hist: &[Op]) -> Option<bool> {
-    let inr = i < model.len();
+  fn do_get(&mut self, list: &StatusList2021, len: usize, i: usize, origin: &Value, hist: &[Op]) -> Option<bool> {
+    let inr = i < len;
     match catch(|| list.get(i)) {
       Err(p) => {
-        self.on_panic("get", !inr, &p, json!({"origin":origin,"call":format!("get({})", i),"len":model.len(),"history":fmt_hist(hist)}));
+        self.on_panic("get", !inr, &p, json!({"origin":origin,"call":format!("get({})", i),"len":len,"history":fmt_hist(hist)}));
         None
       }
       Ok(Ok(v)) => {
         if !inr {
           self.rep.violation(
             "out-of-range-accepted:get",
-            &format!("get({}) = Ok({}) on a list of {} entries", i, v, model.len()),
-            json!({"origin":origin,"index":i,"len":model.len()}),
+            &format!("get({}) = Ok({}) on a list of {} entries", i, v, len),
+            json!({"origin":origin,"index":i,"len":len}),
           );
           None
         } else {
@@ -536,8 +536,8 @@ impl Ctx {
         if inr {
           self.rep.violation(
             "in-range-rejected:get",
-            &format!("get({}) = Err on a list of {} entries", i, model.len()),
-            json!({"origin":origin,"index":i,"len":model.len()}),
+            &format!("get({}) = Err on a list of {} entries", i, len),
+            json!({"origin":origin,"index":i,"len":len}),
           );
         } else {
           self.rep.inc("oob_rejected");
@@ -642,7 +642,7 @@ impl Ctx {
             self.rep.inc("oob_probes");
           }
           nget += 1;
-          if let Some(v) = self.do_get(&list, &model, i, &origin, &hist) {
+          if let Some(v) = self.do_get(&list, model.len(), i, &origin, &hist) {
             if v != model.get(i) {
               self.rep.violation(
                 "get-wrong-value",
@@ -766,6 +766,381 @@ fn gen_route(rng: &mut Rng, allow_big: bool) -> Route {
     };
     Route::Decoded { nbytes, pattern: rng.below(7), pseed: rng.next_u64(), gz: rng.below(5) }
   }
+}
+
+// ------------------------------------------------------------------------------------------
+// very large lists (the statement imposes a minimum length only): sparse model, no sweeps, no encoding
+// ------------------------------------------------------------------------------------------
+
+/// Widths (bits) of the integer types an entry index (w) or the byte position derived from it (w + 3) could be
+/// squeezed through on its way to the store. Only used to choose *which other entries are read* after a write;
+/// what they must read is decided by the model.
+#[cfg(target_pointer_width = "64")]
+const ALIAS_WIDTHS: [u32; 12] = [8, 11, 15, 16, 19, 24, 27, 31, 32, 34, 35, 36];
+
+/// Model of a zero-filled list of `len` entries of which only a few were ever written.
+#[cfg(target_pointer_width = "64")]
+struct Sparse {
+  len: usize,
+  written: std::collections::BTreeMap<usize, bool>,
+}
+
+#[cfg(target_pointer_width = "64")]
+impl Sparse {
+  fn get(&self, i: usize) -> bool {
+    self.written.get(&i).copied().unwrap_or(false)
+  }
+}
+
+/// In-range entries related to `i` (which may itself be out of range): the bytes around it and the entries whose
+/// index differs from `i` by / is `i` reduced modulo a power of two.
+#[cfg(target_pointer_width = "64")]
+fn relatives(i: usize, len: usize) -> std::collections::BTreeSet<usize> {
+  let mut s = std::collections::BTreeSet::new();
+  if len < 8 {
+    return s;
+  }
+  let byte = (i / 8).min(len / 8 - 1);
+  for k in byte.saturating_sub(1) * 8..((byte + 2) * 8).min(len) {
+    if k != i {
+      s.insert(k);
+    }
+  }
+  for w in ALIAS_WIDTHS {
+    let bit = 1usize << w;
+    for c in [i & (bit - 1), i ^ bit, i.wrapping_add(bit), i.wrapping_sub(bit)] {
+      if c < len && c != i {
+        s.insert(c);
+      }
+    }
+  }
+  s
+}
+
+#[cfg(target_pointer_width = "64")]
+fn huge_class(len: usize) -> String {
+  let top = usize::BITS - 1 - (len.max(2) - 1).leading_zeros();
+  format!("2^{}{}", top, if len.is_power_of_two() { "exact" } else { "+" })
+}
+
+#[cfg(target_pointer_width = "64")]
+impl Ctx {
+  /// Reads the given in-range entries in one guarded call. `None`: a violation was already reported
+  /// (panic / in-range index refused); otherwise the entries that differ from the model (first 16).
+  fn huge_probe(&mut self, list: &StatusList2021, m: &Sparse, idxs: &std::collections::BTreeSet<usize>, origin: &Value) -> Option<Vec<usize>> {
+    let r = catch(|| {
+      let mut bad: Vec<(usize, Option<bool>)> = Vec::new();
+      for &i in idxs {
+        match list.get(i) {
+          Ok(v) => {
+            if v != m.get(i) && bad.len() < 16 {
+              bad.push((i, Some(v)));
+            }
+          }
+          Err(_) => {
+            if bad.len() < 16 {
+              bad.push((i, None));
+            }
+          }
+        }
+      }
+      bad
+    });
+    self.rep.count("get_in_range", idxs.len() as u64);
+    self.rep.count("huge_probe_reads", idxs.len() as u64);
+    match r {
+      Err(p) => {
+        let first: Vec<usize> = idxs.iter().take(8).copied().collect();
+        self.on_panic("get", false, &p, json!({"origin":origin,"len":m.len,"indices_read_first":first}));
+        None
+      }
+      Ok(bad) => {
+        let mut diffs = Vec::new();
+        let mut refused = false;
+        for (i, v) in bad {
+          match v {
+            Some(_) => diffs.push(i),
+            None => {
+              refused = true;
+              self.rep.violation(
+                "in-range-rejected:get",
+                &format!("get({}) = Err on a list of {} entries", i, m.len),
+                json!({"origin":origin,"index":i,"len":m.len}),
+              );
+            }
+          }
+        }
+        if refused {
+          None
+        } else {
+          Some(diffs)
+        }
+      }
+    }
+  }
+
+  /// One write/read history over `StatusList2021::new(n)` for a very large `n`. The list is never swept, cloned,
+  /// compared or encoded: after every write the written entry, the entries around it, the entries whose index is
+  /// related to it by a power of two, every entry written so far and the two ends of the list are read back.
+  fn run_huge(&mut self, n: usize, ops: &[Op], label: &str) {
+    use std::collections::BTreeSet;
+    self.rep.eval();
+    let route = Route::New(n);
+    let origin = route.json();
+    let nbytes = n.div_ceil(8);
+    // harness-side guard: where the machine cannot provide the address space the case is skipped (counted), it must
+    // not abort the shard
+    {
+      let mut guard: Vec<u8> = Vec::new();
+      if guard.try_reserve_exact(nbytes).is_err() {
+        self.rep.inc("huge_alloc_unavailable");
+        return;
+      }
+    }
+    let list = match catch(|| StatusList2021::new(n)) {
+      Err(p) => {
+        self.on_panic("new", false, &p, origin.clone());
+        return;
+      }
+      Ok(Err(e)) => {
+        self.rep.violation("new-rejects-permitted-size", &format!("StatusList2021::new({}) = Err({})", n, e), origin.clone());
+        return;
+      }
+      Ok(Ok(l)) => l,
+    };
+    let mut list = list;
+    self.rep.inc("new_lists");
+    self.rep.inc("huge_lists");
+    let len = nbytes * 8;
+    match catch(|| list.len()) {
+      Err(p) => {
+        self.on_panic("len", false, &p, origin.clone());
+        return;
+      }
+      Ok(l) => {
+        self.rep.inc("len_checks");
+        if l != len {
+          self.rep.violation(
+            "len-mismatch:new",
+            &format!("{}: len() = {} but the list was created with {} entries", route.short(), l, len),
+            origin.clone(),
+          );
+          return;
+        }
+      }
+    }
+    let mut m = Sparse { len, written: Default::default() };
+    let ends: BTreeSet<usize> = (0..8).chain(len - 8..len).collect();
+    let mut all: BTreeSet<usize> = ends.clone();
+    for op in ops {
+      let i = match *op {
+        Op::Get(i) | Op::Set(i, _) => i,
+      };
+      if i < len {
+        all.insert(i);
+      }
+      all.extend(relatives(i, len));
+    }
+    // a fresh list reads false wherever this history is going to look
+    match self.huge_probe(&list, &m, &all, &origin) {
+      None => return,
+      Some(d) if !d.is_empty() => {
+        self.rep.violation(
+          "get-mismatch-on-fresh-list",
+          &format!("{}: entries {:?} of a freshly created list read true", route.short(), d),
+          json!({"origin":origin,"entries":d}),
+        );
+        return;
+      }
+      _ => {}
+    }
+    let mut hist: Vec<Op> = Vec::new();
+    let (mut nset, mut nget, mut noob, mut nhigh) = (0u32, 0u32, 0u32, 0u32);
+    for op in ops {
+      hist.push(*op);
+      match *op {
+        Op::Get(i) => {
+          if i >= len {
+            noob += 1;
+            self.rep.inc("oob_probes");
+          }
+          nget += 1;
+          if let Some(v) = self.do_get(&list, len, i, &origin, &hist) {
+            if v != m.get(i) {
+              self.rep.violation(
+                "get-wrong-value",
+                &format!("{}: get({}) = {} but the last value written there is {}", route.short(), i, v, m.get(i)),
+                json!({"origin":origin,"history":fmt_hist(&hist)}),
+              );
+              return;
+            }
+          }
+        }
+        Op::Set(i, v) => {
+          let inr = i < len;
+          if !inr {
+            noob += 1;
+            self.rep.inc("oob_probes");
+          }
+          nset += 1;
+          let case = |extra: Value| json!({"origin":origin,"call":format!("set({},{})", i, v),"len":len,"history":fmt_hist(&hist),"detail":extra});
+          let mut accepted = false;
+          match catch(|| list.set(i, v)) {
+            Err(p) => {
+              self.on_panic("set", !inr, &p, case(json!(null)));
+              return;
+            }
+            Ok(Ok(())) => {
+              if inr {
+                accepted = true;
+                self.rep.inc(if v { "set_true_ok" } else { "set_false_ok" });
+                self.rep.inc("huge_set_ok");
+                if i >= 1usize << 32 {
+                  nhigh += 1;
+                  self.rep.inc("huge_set_ok_index_ge_2p32");
+                }
+                m.written.insert(i, v);
+              } else {
+                self.rep.violation(
+                  "out-of-range-accepted:set",
+                  &format!("set({},{}) = Ok on a list of {} entries", i, v, len),
+                  case(json!(null)),
+                );
+              }
+            }
+            Ok(Err(_)) => {
+              if inr {
+                self.rep.violation(
+                  "in-range-rejected:set",
+                  &format!("set({},{}) = Err on a list of {} entries", i, v, len),
+                  case(json!(null)),
+                );
+              } else {
+                self.rep.inc("oob_rejected");
+              }
+            }
+          }
+          let rel = relatives(i, len);
+          self.rep.count("huge_related_entries_read", rel.len() as u64);
+          let mut look: BTreeSet<usize> = rel;
+          look.extend(ends.iter().copied());
+          look.extend(m.written.keys().copied());
+          if inr {
+            look.insert(i);
+          }
+          let Some(diffs) = self.huge_probe(&list, &m, &look, &origin) else { return };
+          if !diffs.is_empty() {
+            let c = case(json!({"flipped_entries": diffs, "entries_written_so_far": m.written.iter().map(|(k, v)| format!("{}={}", k, v)).collect::<Vec<_>>()}));
+            self.report_write_diffs("", &route.short(), i, v, accepted, None, &diffs, c);
+            // list and model have diverged and a list of this size cannot be rebuilt from the model: stop here
+            return;
+          }
+        }
+      }
+    }
+    // end of history: everything this history looked at or wrote
+    all.extend(m.written.keys().copied());
+    match self.huge_probe(&list, &m, &all, &origin) {
+      None => return,
+      Some(d) if !d.is_empty() => {
+        self.rep.violation(
+          "get-wrong-value",
+          &format!("{}: after the history entries {:?} read differently from the last value written", route.short(), d),
+          json!({"origin":origin,"history":fmt_hist(&hist),"entries":d}),
+        );
+      }
+      _ => {}
+    }
+    self.rep.inc("huge_histories_completed");
+    self.rep.distinct(
+      "nontrivial",
+      &format!("{}|huge|{}|s{}|g{}|o{}|h{}", label, huge_class(len), (nset / 10).min(9), (nget / 10).min(9), noob.min(3), (nhigh / 5).min(5)),
+    );
+    if self.rep.want_sample() && nset > 3 {
+      let h: Vec<Op> = hist.iter().take(8).copied().collect();
+      self.rep.sample(json!({"kind":label,"origin":origin,"first_ops":fmt_hist(&h),"ops":hist.len()}));
+    }
+  }
+}
+
+#[cfg(target_pointer_width = "64")]
+fn gen_huge_size(rng: &mut Rng, thorough: bool) -> usize {
+  let base: usize = match rng.below(if thorough { 12 } else { 10 }) {
+    0 | 1 => 1 << 31,
+    2..=6 => 1 << 32,
+    7 | 8 => 1 << 33,
+    9 => (1 << 32) + (1 << 31),
+    10 => 1 << 34,
+    _ => 1 << 35,
+  };
+  base
+    + match rng.below(5) {
+      0 => 0,
+      1 => 1 + rng.usize(8),
+      2 => 64,
+      3 => 8 * (1 + rng.usize(1 << 16)),
+      _ => 1 + rng.usize(1 << 24),
+    }
+}
+
+#[cfg(target_pointer_width = "64")]
+fn gen_huge_ops(rng: &mut Rng, len: usize, n: usize) -> Vec<Op> {
+  let nbytes = len / 8;
+  // byte positions of the entries 2^31 .. 2^36
+  let pow_bytes: Vec<usize> = (28..=33).map(|w| 1usize << w).filter(|b| *b < nbytes).collect();
+  let mut anchors: Vec<usize> = Vec::new();
+  for _ in 0..2 + rng.usize(3) {
+    anchors.push(match rng.below(9) {
+      0 => 0,
+      1 => nbytes - 1,
+      2 | 3 if !pow_bytes.is_empty() => *rng.pick(&pow_bytes),
+      4 if !pow_bytes.is_empty() => *rng.pick(&pow_bytes) - 1,
+      5 => rng.usize(1 << 14),
+      _ => rng.usize(nbytes),
+    });
+  }
+  let mut prev: Vec<usize> = Vec::new();
+  let mut ops = Vec::with_capacity(n);
+  for _ in 0..n {
+    let r = rng.below(100);
+    let idx = if r < 40 || (r < 75 && prev.is_empty()) {
+      *rng.pick(&anchors) * 8 + rng.usize(8)
+    } else if r < 75 {
+      // an entry whose index is related to an earlier one by a power of two
+      let p = *rng.pick(&prev);
+      let bit = 1usize << *rng.pick(&ALIAS_WIDTHS);
+      let cands: Vec<usize> = [p & (bit - 1), p ^ bit, p.wrapping_add(bit), p.wrapping_sub(bit)].into_iter().filter(|c| *c < len && *c != p).collect();
+      if cands.is_empty() {
+        p
+      } else {
+        *rng.pick(&cands)
+      }
+    } else if r < 85 {
+      rng.usize(len)
+    } else {
+      match rng.below(10) {
+        0 => len - 1,
+        1 => len,
+        2 => len + 1,
+        3 => len + 7,
+        4 => len + 8,
+        5 => usize::MAX,
+        6 => len + (1 << 32),
+        7 => len + rng.usize(1 << 20),
+        8 => len.saturating_mul(8),
+        _ => (rng.next_u64() as usize) | (1 << 40),
+      }
+    };
+    if idx < len && prev.len() < 64 {
+      prev.push(idx);
+    }
+    ops.push(match rng.below(10) {
+      0 | 1 => Op::Get(idx),
+      2..=6 => Op::Set(idx, true),
+      _ => Op::Set(idx, false),
+    });
+  }
+  ops
 }
 
 // ------------------------------------------------------------------------------------------
@@ -1538,12 +1913,18 @@ fn main() {
     "cases = (1) exhaustive single writes: every (byte value, bit offset, written value) at fixed byte positions of a list \
      decoded from bytes the harness gzip+base64-encoded itself, neighbours non-zero (distinct by construction); \
      (2) seeded write/read histories of 200 calls over lists made by new(n) / default() / decoding harness-encoded byte patterns, \
-     indices clustered in a few bytes plus len-1, len, len+1.., usize::MAX; (3) status-list-credential scenarios \
+     indices clustered in a few bytes plus len-1, len, len+1.., usize::MAX; (2b, full scale only) histories of 60 calls over new(n) for \
+     n around 2^31 .. 2^35 judged by a sparse model: indices clustered around 0, the powers of two, the end and entries whose index is an \
+     earlier index modulo / plus / minus a power of two; after each write those related entries, all written entries and both ends are read \
+     (such lists are never swept or encoded); (3) status-list-credential scenarios \
      (set_credential_status, update/set_entry, entry, JSON round trip, check_status_with_status_list_2021) for both purposes. \
      Every case is judged against the harness's own byte-vector model and own decoder. non-trivial+distinct: histories classed by \
      (creation route, size class, pattern, gzip flavour, #writes, #reads, #out-of-range probes); scenarios by (purpose, route, id layout, size, pattern, #calls)",
   );
   cx.rep.note("scale_permille", json!(scale));
+  // `--huge 0` switches the very-large-list stage off; it is also off below full scale and on 32-bit targets
+  let huge = scale >= 1000 && args.extra_u64("huge", 1) != 0 && cfg!(target_pointer_width = "64");
+  cx.rep.note("huge_list_stage", json!(huge));
   cx.rep.note("assumption_bit_order", json!("entry i is bit (0x80 >> i%8) of byte i/8 of the gunzipped bitstring (W3C: left-most bit is index 0)"));
 
   // ---- (0) canonical minimal histories first, so that the first witness recorded per signature is the smallest
@@ -1572,6 +1953,28 @@ fn main() {
         let m = 8usize << 20;
         cx.rep.inc("large_list_sequences");
         cx.run_sequence(&Route::New(n), None, &[Op::Set(n - 1, t), Op::Set(m - 1, t), Op::Set(m.min(n - 1), t), Op::Get(n - 1), Op::Set(0, t), Op::Set(n - 2, f), Op::Get(n), Op::Get(m - 1)], 0, "canon");
+      }
+    }
+    // very large size classes (2^31 .. 2^35 entries and more): sparse model, a handful of writes and reads around the
+    // powers of two, the two ends and the entries whose index is the written one modulo / plus / minus a power of two
+    #[cfg(target_pointer_width = "64")]
+    if huge {
+      let p32 = 1usize << 32;
+      cx.run_huge(p32 + 64, &[Op::Set(p32, t), Op::Get(0), Op::Get(p32)], "canon");
+      cx.run_huge(p32 + 64, &[Op::Set(5, t), Op::Set(p32 + 5, t), Op::Set(5, f), Op::Get(p32 + 5), Op::Get(5)], "canon");
+      for n in [p32 + 64, p32, p32 + 1, (1 << 31) + 64, (1 << 33) + 8, p32 + (1 << 31) + 24, (1 << 35) + 64] {
+        let len = n.div_ceil(8) * 8;
+        // b = the largest power of two below the length
+        let b = 1usize << (usize::BITS - 1 - (len - 1).leading_zeros());
+        cx.run_huge(
+          n,
+          &[
+            Op::Set(b, t), Op::Get(0), Op::Set(b + 5, t), Op::Get(5), Op::Set(17, t), Op::Get(b + 17), Op::Set(5, t), Op::Set(5, f), Op::Get(b + 5),
+            Op::Set(b - 1, t), Op::Get(b - 1), Op::Set(len - 1, t), Op::Get(len - 1), Op::Set(len - 2, f), Op::Get(63), Op::Set(b + 5, f), Op::Get(5),
+            Op::Get(len), Op::Set(len, t), Op::Set(len + p32, f), Op::Set(len + 7, t), Op::Get(usize::MAX), Op::Set(usize::MAX, t), Op::Get(0),
+          ],
+          "canon",
+        );
       }
     }
     // below the documented minimum: Err is fine; if accepted it must hold that many entries
@@ -1677,6 +2080,19 @@ fn main() {
     let ops = gen_ops(&mut rng, len, nops);
     let full_every = if thorough || s % 4 == 0 { 50 } else { 0 };
     cx.run_sequence(&route, None, &ops, full_every, "hist");
+  }
+
+  // ---- (2b) random histories over very large lists (not at the reduced scale of the Miri/sanitizer stages)
+  #[cfg(target_pointer_width = "64")]
+  if huge {
+    let mut rng2b = args.rng(1232);
+    let n_huge = if thorough { 4_800 } else { 160 };
+    let per_shard = (n_huge as u64).div_ceil(args.nshards.max(1));
+    for _ in 0..per_shard {
+      let n = gen_huge_size(&mut rng2b, thorough);
+      let ops = gen_huge_ops(&mut rng2b, n.div_ceil(8) * 8, 60);
+      cx.run_huge(n, &ops, "hist");
+    }
   }
 
   // ---- (3) credential level
